@@ -81,13 +81,27 @@ func mutate(t *simrt.Tape, b []byte) []byte {
 		if len(b) > 0 {
 			pos = t.Choose(len(b))
 		}
+		if t.Choose(2) == 0 {
+			// at the start of a line (often the very first one, before any LOGIN): inserted commands are then
+			// read as commands instead of landing in the middle of another one
+			starts := []int{0}
+			for j := 0; j+1 < len(b); j++ {
+				if b[j] == '\r' && b[j+1] == '\n' {
+					starts = append(starts, j+2)
+				}
+			}
+			pos = starts[t.Choose(len(starts))]
+			if t.Choose(3) == 0 {
+				pos = 0
+			}
+		}
 		switch t.Choose(12) {
 		case 0: // flip a byte
-			if len(b) > 0 {
+			if pos < len(b) {
 				b[pos] = byte(t.Choose(256))
 			}
 		case 1: // delete a range
-			if len(b) > 0 {
+			if pos < len(b) {
 				end := pos + 1 + t.Choose(20)
 				if end > len(b) {
 					end = len(b)
@@ -129,7 +143,9 @@ func mutate(t *simrt.Tape, b []byte) []byte {
 			ins := []string{"q1 FETCH 1 BODY[]<1.9223372036854775807>\r\n", "q2 FETCH 1 (BODY.PEEK[1.2.3.HEADER.FIELDS.NOT (X)]<0.0>)\r\n", "q3 SEARCH OR OR OR OR ALL\r\n", "q4 UID FETCH 4294967295:* FLAGS\r\n", "q5 STORE 1:4294967295 +FLAGS.SILENT (\\Seen \\*)\r\n", "q6 SEARCH SMALLER 5 LARGER 1 NOT NOT NOT ALL\r\n", "q7 LIST (SUBSCRIBED) \"\" (\"%\" \"*\") RETURN (STATUS (MESSAGES))\r\n", "q8 APPEND INBOX (\\Seen) \"01-Jan-2020 00:00:00 +0000\" {3+}\r\nabc\r\n", "q9 ENABLE\r\n", "q10 FETCH 1 BINARY.SIZE[1]\r\n"}[t.Choose(10)]
 			b = append(b[:pos:pos], append([]byte(ins), b[pos:]...)...)
 		default: // IDLE / AUTHENTICATE continuation abuse
-			ins := []string{"w1 IDLE\r\nw2 NOOP\r\n", "w3 AUTHENTICATE PLAIN\r\n!!!!\r\n", "w4 AUTHENTICATE PLAIN =\r\n", "w5 IDLE\r\nDONE\r\nDONE\r\n", "w6 AUTHENTICATE LOGIN\r\n*\r\n", "w7 STARTTLS\r\n"}[t.Choose(6)]
+			ins := []string{"w1 IDLE\r\nw2 NOOP\r\n", "w3 AUTHENTICATE PLAIN\r\n!!!!\r\n", "w4 AUTHENTICATE PLAIN =\r\n", "w5 IDLE\r\nDONE\r\nDONE\r\n", "w6 AUTHENTICATE LOGIN\r\n*\r\n", "w7 STARTTLS\r\n",
+				// continuation lines longer than the server's read buffer
+				"w8 AUTHENTICATE PLAIN\r\n" + strings.Repeat("QUFB", 1300) + "\r\nw8b NOOP\r\n", "w9 AUTHENTICATE LOGIN\r\ndXNlcg==\r\n" + strings.Repeat("QUFB", 1100) + "\r\n", "w10 IDLE\r\n" + strings.Repeat("D", 5000) + "\r\nDONE\r\n"}[t.Choose(9)]
 			b = append(b[:pos:pos], append([]byte(ins), b[pos:]...)...)
 		}
 	}
